@@ -44,7 +44,7 @@ def model_check(ctx, shape, max_env, flagsets="CoreFlagSets", env="AllEnv", faul
 
 
 def explore(ctx, tag, shape="chain", max_env=2, flags="m,c,o", extra="", faults=False, shards=NCPU, env=None,
-            random_walks=0, walk_len=10):
+            random_walks=0, walk_len=10, native=False):
     """Run `driver repo` (sharded) and return (lines, stats)."""
     jobs = []
     for i in range(shards):
@@ -57,6 +57,10 @@ def explore(ctx, tag, shape="chain", max_env=2, flags="m,c,o", extra="", faults=
             a += ["-env", env]
         if random_walks:
             a += ["-random", max(1, random_walks // shards), "-walk-len", walk_len]
+        if native:
+            # runs are done by the built gopki BINARY on a native scratch directory (answer `y` on stdin);
+            # flag sets must contain generate-missing (a failing run's plan cannot be read off the command line)
+            a += ["-native-bin", ctx.build_gopki(), "-native-dir", ctx.path("native-%s-%d" % (tag, i))]
         jobs.append(a)
     ctx.driver_parallel(jobs, timeout=7200)
     lines, stats = [], []
